@@ -184,6 +184,16 @@ pub fn run(ctx: &Ctx) -> Report {
                 }
             }
         }
+        if prop == "C11" && w == 0 {
+            // registries far larger than a history builds: code ids beyond one and two bytes, instance numbers beyond one
+            // byte (thorough: beyond two)
+            let (codes, insts) = if ctx.tier.is_thorough() { (70_000, 66_000) } else { (66_000, 300) };
+            for dsc in crate::engines::e1_scale::registry_scale_pass(&mut rep, codes, insts, ctx.seed) {
+                for p in &dsc.props {
+                    rep.violate(p, dsc.sig.clone(), dsc.detail.clone(), json!({"engine": "e1_scale", "codes": codes, "instances": insts, "first_discrepancy": dsc.detail}));
+                }
+            }
+        }
         if prop == "C01" || prop == "C10" {
             // trees with staking / distribution / ibc / gov messages: model-free invariants only
             let n = ctx.scale(240, 16 * 3000) / ctx.workers as u64;
@@ -223,6 +233,7 @@ pub fn run(ctx: &Ctx) -> Report {
             v.push("e1/submsg/Always/child-failed/reply-failed/depth1".into());
             v.push("e1/submsg/Success/child-ok/reply-failed/depth1".into());
             v.push("e1/rolled_back_changes_checked".into());
+            v.push("e1/trace/transactions_with_20_or_more_invocations".into());
             if prop == "C02" {
                 v.push("e1/module_submsg_cells".into());
                 v.push("c17/caught_failure_rollback_checks".into());
@@ -233,7 +244,7 @@ pub fn run(ctx: &Ctx) -> Report {
         "C05" => vec!["e1/entries_with_funds".into(), "e1/failure/Overdraft/propagated".into(), "e1/entry/Instantiate".into(), "e1/entry/Reply".into(), "e1/entry/Sudo".into(), "e1/entry/Migrate".into(), "e1/block_changes".into(), "e1/block_changes/same_height".into(), "e1/addr/respelled-address-rejected".into()],
         "C08" => vec!["e1/accessors/writes_through_contract_storage_mut".into(), "e1/accessors/contracts_compared".into(), "e1/accessors/raw_queries_compared".into(), "e1/state/contract_storages_compared".into()],
         "C10" => vec!["e1/purity/queries_issued_twice".into(), "e1/purity/storage_unchanged_checks".into(), "e1/trace/probes_compared".into(), "e1/staking_query_histories".into(), "stk/pending_vs_raw_state_checked".into()],
-        "C11" => vec!["e1/registry/store_code/auto".into(), "e1/registry/store_code/chosen".into(), "e1/registry/duplicate_code/valid".into(), "e1/failure/DuplicateAddress/top-level".into(), "e1/failure/EmptyLabel/propagated".into(), "e1/failure/NoSuchCode/propagated".into(), "e1/accessors/code_info_compared".into()],
+        "C11" => vec!["e1/scale/codes_stored".into(), "e1/scale/instantiations".into(), "e1/scale/instances_revisited".into(), "e1/registry/store_code/auto".into(), "e1/registry/store_code/chosen".into(), "e1/registry/duplicate_code/valid".into(), "e1/failure/DuplicateAddress/top-level".into(), "e1/failure/EmptyLabel/propagated".into(), "e1/failure/NoSuchCode/propagated".into(), "e1/accessors/code_info_compared".into()],
         "C12" => vec!["e1/failure/NotAdmin/propagated".into(), "e1/entry/Migrate".into(), "e1/addr/respelled-address-rejected".into(), "e1/failure/NoEntryPoint/top-level".into(), "e1/admin_matrix_histories".into()],
         "C13" => vec!["e1/failure/BadAttribute/propagated".into(), "e1/failure/BadAttribute/caught".into(), "e1/attr_and_event_strings".into()],
         _ => vec![],
@@ -248,6 +259,14 @@ pub fn replay(ctx: &Ctx, w: &Value) -> Report {
     let mut rep = Report::new();
     if w["engine"] == "e4_staking" {
         return crate::props::staking_replay(ctx, w);
+    }
+    if w["engine"] == "e1_scale" {
+        for dsc in crate::engines::e1_scale::registry_scale_pass(&mut rep, w["codes"].as_u64().unwrap_or(66_000), w["instances"].as_u64().unwrap_or(300), ctx.seed) {
+            for p in &dsc.props {
+                rep.violate(p, dsc.sig.clone(), dsc.detail.clone(), json!({"engine": "e1_scale", "codes": w["codes"], "instances": w["instances"], "first_discrepancy": dsc.detail}));
+            }
+        }
+        return rep;
     }
     let case: Case = serde_json::from_value(w["case"].clone()).expect("case");
     let discs = if w["engine"] == "e1_opaque" { replay_opaque(&case, &mut rep) } else { run_case(&case, &mut rep, &ctx.prop) };
